@@ -346,8 +346,14 @@ extern "C" {
     if (mx.owner == selfId) {
       if (--mx.count <= 0) { mx.owner = -1; mx.count = 0; wake(m); }
     } else if (mx.owner == -1) {
-      // unlock of a mutex nobody holds: undefined behaviour in POSIX, harmless with the futex implementation
-      if (active && checking) ++strayUnlocks;
+      // unlock of a mutex nobody holds: undefined behaviour in POSIX.  With the futex implementation nothing happens
+      // in this schedule, but the same call releases the lock under another thread whenever one happens to hold it
+      // (the schedule-independent form of unlock-of-foreign-mutex), so it is reported
+      if (active && checking) {
+        ++strayUnlocks;
+        report("unlock-of-unheld-mutex", "thread %d unlocks mutex %p which nobody holds (in another schedule this releases it under its owner)",
+               selfId, (void*) m);
+      }
     } else {
       // Unlocking a mutex that ANOTHER thread holds: the futex implementation releases it, so the owner's
       // critical section silently loses its protection.  Undefined behaviour in POSIX; reported.
